@@ -54,7 +54,7 @@ from adaptix import (
     name_mapping,
     validator,
 )
-from adaptix.conversion import ConversionRetort, coercer, link
+from adaptix.conversion import ConversionRetort, coercer, link, link_constant, link_function
 
 try:
     import pydantic
@@ -78,6 +78,12 @@ class Shade(enum.Enum):
 class Perm(enum.Flag):
     RD = 1
     WR = 2
+
+
+class FlagGap(enum.Flag):
+    """A flag with a skipped bit: the flag provider refuses it from *inside* a cached factory."""
+    READ = 1
+    EXEC = 4
 
 
 N1 = NewType("N1", int)
@@ -251,6 +257,18 @@ class Unsupported:
 
 
 @dataclass
+class UserFG:
+    name: str
+    perm: FlagGap
+
+
+@dataclass
+class GroupFG:
+    title: str
+    default_perm: FlagGap
+
+
+@dataclass
 class FwdUser:
     """Forward reference that is unresolvable until `LateBound` is bound into this module."""
     x: int
@@ -303,6 +321,23 @@ def _make_dup(tag_value):
 
 
 DupA, DupB = _make_dup("A"), _make_dup("B")
+
+
+@dataclass
+class DefF:
+    """Defaults that are == to DefB's but of another type."""
+    x: float = 0.0
+    y: float = 1.0
+    t: Tuple[int, ...] = (0, 1)
+    name: str = "n"
+
+
+@dataclass
+class DefB:
+    x: bool = False
+    y: bool = True
+    t: Tuple[bool, ...] = (False, True)
+    name: str = "n"
 
 
 # conversion models
@@ -376,9 +411,65 @@ class CDst:
 
 
 @dataclass
+class CDstS:
+    """Needs two independent providers: a link for `c` and an int -> str coercer for `a`."""
+    a: str
+    c: int
+
+
+@dataclass
 class M1S:
     a: str
     b: str = "x"
+
+
+@dataclass
+class CDstTags:
+    a: int
+    tags: List[int]
+    total: int = 0
+
+
+@dataclass
+class SatModel:
+    """Unknown input keys are handed to a user saturator and read back by a user extractor."""
+    a: int
+    more: Dict[str, Any] = field(default_factory=dict)
+
+
+@dataclass
+class SatOpt:
+    """Like SatModel, but every own field has a default (with omit_default the own part of a dump is empty)."""
+    a: int = 0
+    more: Dict[str, Any] = field(default_factory=dict)
+
+
+@dataclass
+class AnnSrc:
+    tags: Annotated[List[str], "meta"]
+    attrs: Annotated[Dict[str, int], 1]
+    inner: Annotated[SrcInner, "x"]
+    n: int = 0
+
+
+@dataclass
+class AnnDst:
+    tags: List[str]
+    attrs: Dict[str, int]
+    inner: SrcInner
+    n: int = 0
+
+
+def _saturate(obj, extra):
+    obj.more = extra            # keeps the mapping adaptix built for this call
+
+
+def _extract(obj):
+    return obj.more             # hands the object's own mapping to the dumper
+
+
+def _sum_ab(src):
+    return src.a + src.b
 
 
 # ------------------------------------------------------------------------------------------------
@@ -434,7 +525,7 @@ _t("annotated",
 _t("model",
    M1=M1, M2=M2, M3=M3, ListM1=List[M1], ListM2=List[M2], OptM1=Optional[M1], DictStrM1=Dict[str, M1],
    Inner=Inner, NT=NT, TD=TD, AT=AT, SnakeCase=SnakeCase, WithAny=WithAny, WithExtra=WithExtra,
-   WithDefaults=WithDefaults, KwModel=KwModel, StreamHolder=StreamHolder, ListNT=List[NT])
+   WithDefaults=WithDefaults, DupA=DupA, DupB=DupB, DefF=DefF, DefB=DefB, KwModel=KwModel, StreamHolder=StreamHolder, ListNT=List[NT], SatModel=SatModel, SatOpt=SatOpt)
 _t("generic",
    GInt=G[int], GBool=G[bool], GStr=G[str], GListInt=G[List[int]], PairIntStr=Pair[int, str],
    PairStrInt=Pair[str, int], PairBoolStr=Pair[bool, str], GBare=G, ListingA=ListingA, ListingB=pools_b.ListingB)
@@ -443,7 +534,7 @@ _t("recursive",
    LinkedBool=Linked[bool], Outer1=Outer1, Outer2=Outer2, Holder=Holder, OptNode=Optional[Node],
    DictStrNode=Dict[str, Node])
 _t("failing", Unsupported=Unsupported, FwdUser=FwdUser, CallableT=typing.Callable[[int], int],
-   ListUnsupported=List[Unsupported])
+   ListUnsupported=List[Unsupported], FlagGap=FlagGap, UserFG=UserFG, GroupFG=GroupFG, ListFlagGap=List[FlagGap])
 if PM is not None:
     _t("model", PM=PM)
 
@@ -457,7 +548,7 @@ CONFUSABLE_GROUPS = [
     ["GLit01", "GLitFT"], ["LitNone0", "LitNoneF"], ["LitShade", "LitShadeStr"],
     ["UIntStr", "UStrInt", "UIntStrNone", "UNested"], ["OptInt", "UIntNone", "UNoneInt", "PipeIntNone"],
     ["UBoolInt", "UIntBool"], ["UFloatInt", "UIntFloat"], ["UM1M3", "UM3M1"], ["ULM1LM2", "ULM2LM1"],
-    ["UDM1DM2", "UDM2DM1"], ["UDupAB", "UDupBA"],
+    ["UDM1DM2", "UDM2DM1"], ["UDupAB", "UDupBA"], ["DupA", "DupB"], ["DefF", "DefB"],
     ["ListInt", "listInt", "SeqInt", "IterInt", "TupIntEll", "TupInt", "SetInt", "FSetInt", "DequeInt"],
     ["DictStrInt", "dictStrInt", "MapStrInt", "MMapStrInt", "DDictStrInt"],
     ["DictStrListInt", "DDictStrListInt", "MapStrListInt", "MMapStrListInt"],
@@ -465,7 +556,7 @@ CONFUSABLE_GROUPS = [
     ["AnnInt0", "AnnIntF", "AnnIntX"], ["AnnListInt1", "AnnListIntT"], ["GInt", "GBool", "GStr", "GBare"],
     ["PairIntStr", "PairStrInt", "PairBoolStr"], ["ListingA", "ListingB"], ["LinkedInt", "LinkedStr", "LinkedBool"], ["TupIntStr", "TupBoolStr"],
     ["RA", "RB"], ["Node", "ListNode", "OptNode", "DictStrNode", "Holder"], ["int", "bool", "float", "Color"],
-    ["Unsupported", "ListUnsupported", "CallableT"], ["bytes", "bytearray", "BytesIO", "IOBytes"],
+    ["Unsupported", "ListUnsupported", "CallableT"], ["FlagGap", "UserFG", "GroupFG", "ListFlagGap"], ["bytes", "bytearray", "BytesIO", "IOBytes"],
 ]
 PARTNERS: Dict[str, List[str]] = {}
 for _g in CONFUSABLE_GROUPS:
@@ -517,13 +608,16 @@ DATA: Dict[str, Any] = {
     "withany": {"anyf": [1, [2]], "objf": {"k": [3]}, "lst": [[1], {"a": [2]}]},
     "withextra": {"a": 1, "zzz": [7], "yyy": {"k": [1]}}, "withextra_plain": {"a": 1},
     "withdefaults_empty": {}, "withdefaults_full": {"xs": [1], "m": {"k": [1]}, "s": [1, 2], "t": [1, 2], "n": [3]},
-    "kw": {"a": 1, "p": [1], "q": {"z": [2]}},
+    "kw": {"a": 1, "p": [1], "q": {"z": [2]}}, "kw0": {"p": [1], "q": {"z": [2]}},
+    "dd_wd": collections.defaultdict(list, {"xs": [1]}), "dd_snake": collections.defaultdict(str, {"first_name": "f"}),
     "stream": {"blob": "aGVsbG8=", "arr": "YWJj"}, "stream_bad": {"blob": "!!!", "arr": 1},
     "unsupported": {"ok": 1}, "fwd": {"x": 1, "late": {"z": 2}}, "fwd_none": {"x": 1},
     "pm": {"a": 1, "items": [1, 2]},
     "tup_is": [1, "s"], "tup_Ts": [True, "s"], "tup_01": [0, 1], "tup_FT": [False, True],
-    "dup_x": {"x": 1}, "listing_a": {"item": {"name": "x", "price": 2}, "n": 1}, "listing_b": {"item": {"title": "y"}, "n": 2},
+    "dup_x": {"x": 1}, "def_name": {"name": "s"}, "listing_a": {"item": {"name": "x", "price": 2}, "n": 1}, "listing_b": {"item": {"title": "y"}, "n": 2},
     "m_legacy": {"legacy_a": 1, "m1_a": 5, "a": 7, "b": "x"},
+    "m_paths": {"data": {"a": 1, "meta": {"b": "x"}}, "a": 7, "b": "y"}, "inner_paths": {"payload": {"v": 1, "tags": ["t"]}, "v": 2, "tags": ["u"]},
+    "pair_paths": {"items": [1, "s"], "first": 2, "second": "t"},
     "outer_upper": {"name": "o", "inner": {"V": 1, "TAGS": ["t"], "v": 2, "tags": ["u"]}, "node": NODE4},
     "dec": "1.50", "color1": 1, "colorR": "R", "perm3": 3, "perm_names": ["RD", "WR"],
     # a defaultdict is a legal mapping input; looking up a missing required key in it has a side effect
@@ -558,14 +652,15 @@ BATTERY: Dict[str, List[str]] = {
     "BytesIO": ["b64"], "IOBytes": ["b64"],
     "N3": ["s1"], "ListN1": ["l1", "lTF"], "ListN2": ["l1", "lTF"],
     "AnnListInt1": ["l1", "lTF"], "AnnListIntT": ["l1", "lTF"],
-    "M1": ["m_ab", "m_aTb", "m_a", "m_bad", "m_extra", "dd_m_b", "dd_m_a", "m_legacy"],
+    "M1": ["m_ab", "m_aTb", "m_a", "m_bad", "m_extra", "dd_m_b", "dd_m_a", "m_legacy", "m_paths"],
     "M2": ["m_ab", "m_aTb", "m_a", "m_bad", "dd_m_b", "m_legacy"], "M3": ["m_ab", "m_aTb", "m_a", "m_bad", "m_legacy"], "ListM1": ["lm"], "ListM2": ["lm"], "OptM1": ["m_ab", "m_bad"],
-    "DictStrM1": ["dm"], "Inner": ["inner", "inner_neg", "inner_extra", "dd_inner"], "NT": ["nt", "nt_tags"], "ListNT": ["lnt"],
-    "TD": ["td", "td_a"], "AT": ["at", "at_a"], "SnakeCase": ["snake", "snake_camel"], "WithAny": ["withany"],
-    "WithExtra": ["withextra", "withextra_plain"], "WithDefaults": ["withdefaults_empty", "withdefaults_full"],
-    "KwModel": ["kw", "m_a"], "StreamHolder": ["stream", "stream_bad"],
+    "DictStrM1": ["dm"], "Inner": ["inner", "inner_neg", "inner_extra", "dd_inner", "inner_paths"], "NT": ["nt", "nt_tags"], "ListNT": ["lnt"],
+    "TD": ["td", "td_a"], "AT": ["at", "at_a"], "SnakeCase": ["snake", "snake_camel", "dd_snake"], "WithAny": ["withany"],
+    "WithExtra": ["withextra", "withextra_plain"], "WithDefaults": ["withdefaults_empty", "withdefaults_full", "dd_wd"],
+    "DupA": ["dup_x"], "DupB": ["dup_x"], "DefF": ["empty_d", "def_name"], "DefB": ["empty_d", "def_name"],
+    "KwModel": ["kw", "m_a"], "SatModel": ["kw", "m_a"], "SatOpt": ["kw0", "kw"], "StreamHolder": ["stream", "stream_bad"],
     "GInt": ["g_v1", "g_vT", "g_vs"], "GBool": ["g_v1", "g_vT", "g_vTb"], "GStr": ["g_vs", "g_v1"], "GListInt": ["g_vl"],
-    "GBare": ["g_v1", "g_vs"], "ListingA": ["listing_a", "listing_b"], "ListingB": ["listing_b", "listing_a"], "PairIntStr": ["pair_is", "pair_si", "pair_Ts"], "PairStrInt": ["pair_is", "pair_si"],
+    "GBare": ["g_v1", "g_vs"], "ListingA": ["listing_a", "listing_b"], "ListingB": ["listing_b", "listing_a"], "PairIntStr": ["pair_is", "pair_si", "pair_Ts", "pair_paths"], "PairStrInt": ["pair_is", "pair_si"],
     "PairBoolStr": ["pair_is", "pair_Ts"],
     "Node": ["node4", "node4_bad", "node1"], "ListNode": ["lnode"], "Tree": ["tree3", "tree3_bad"],
     "RA": ["ra3"], "RB": ["rb3"], "LinkedInt": ["linked_int", "linked_str", "linked_bool"],
@@ -573,6 +668,7 @@ BATTERY: Dict[str, List[str]] = {
     "Outer1": ["outer", "outer_bad", "outer_upper"], "Outer2": ["outer", "outer_bad", "outer_upper"], "Holder": ["holder"],
     "OptNode": ["node4", "node4_bad"], "DictStrNode": ["dnode"],
     "Unsupported": ["unsupported"], "FwdUser": ["fwd", "fwd_none"], "ListUnsupported": ["empty_l"],
+    "FlagGap": ["i1"], "UserFG": ["m_a"], "GroupFG": ["m_a"], "ListFlagGap": ["l1"],
     "PM": ["pm"],
 }
 
@@ -646,7 +742,9 @@ OBJECTS: Dict[str, Any] = {
     "o_withany": lambda: WithAny([1, [2]], {"k": [3]}, [[1], {"a": [2]}]),
     "o_withextra": lambda: WithExtra(1, {"zzz": [7], "yyy": {"k": [1]}}),
     "o_withdefaults": lambda: WithDefaults(), "o_withdefaults_full": lambda: WithDefaults([1], {"k": [1]}, {1, 2}, (1, 2), [3]),
-    "o_kw": lambda: KwModel(1, p=[1]),
+    "o_kw": lambda: KwModel(1, p=[1]), "o_sat": lambda: _sat(1, {"p": [1], "q": {"z": [2]}}),
+    "o_satopt0": lambda: SatOpt(0, {"p": [1], "q": {"z": [2]}}), "o_satopt1": lambda: SatOpt(1, {"p": [1]}),
+    "o_annsrc": lambda: AnnSrc(["t", "u"], {"k": 1}, SrcInner([1], {"k": [1]}), 3),
     "o_stream": lambda: StreamHolder(_stream(b"hello world", 3), bytearray(b"abc")),
     "o_bytesio": lambda: _stream(b"hello world", 3), "o_bytesio0": lambda: _stream(b"xyz", 0),
     "o_faulty_stream": lambda: FaultyStream(b"hello world", 3), "o_text_stream": lambda: _text_stream("header|payload", 7),
@@ -665,11 +763,16 @@ OBJECTS: Dict[str, Any] = {
     "o_srcouter": _srcouter, "o_srcinner": lambda: SrcInner([1], {"k": [1]}),
     "o_lsrcinner": lambda: [SrcInner([1]), SrcInner([2], {"k": [3]})],
     "o_listing_a": lambda: ListingA(ProductA("x", 2), 1), "o_listing_b": lambda: pools_b.ListingB(pools_b.ProductB("y"), 2),
+    "o_deff": lambda: DefF(), "o_defb": lambda: DefB(),
     "o_csrc": lambda: CSrc(1, 2), "o_dupA": lambda: DupA(1), "o_dupB": lambda: DupB(2),
     "o_dsrcinner": lambda: {"p": SrcInner([1]), "q": SrcInner([2], {"k": [3]})},
 }
 if PM is not None:
     OBJECTS["o_pm"] = lambda: PM(a=1, items=[1, 2])
+
+
+def _sat(a, more):
+    return SatModel(a, more)
 
 
 def _stream(content, pos):
@@ -736,7 +839,7 @@ DUMP_BATTERY: Dict[str, List[str]] = {
     "M1": ["o_m1", "o_m1T"], "M2": ["o_m2"], "M3": ["o_m3"], "ListM1": ["o_lm1"], "ListM2": ["o_lm2"],
     "OptM1": ["o_m1", "o_none"], "DictStrM1": ["o_dm1"], "Inner": ["o_inner"], "NT": ["o_nt"], "ListNT": ["o_lnt"],
     "TD": ["o_td"], "AT": ["o_at"], "SnakeCase": ["o_snake"], "WithAny": ["o_withany"], "WithExtra": ["o_withextra"],
-    "WithDefaults": ["o_withdefaults", "o_withdefaults_full"], "KwModel": ["o_kw"], "StreamHolder": ["o_stream", "o_stream_faulty"],
+    "WithDefaults": ["o_withdefaults", "o_withdefaults_full"], "DupA": ["o_dupA"], "DupB": ["o_dupB"], "DefF": ["o_deff"], "DefB": ["o_defb"], "KwModel": ["o_kw"], "SatModel": ["o_sat"], "SatOpt": ["o_satopt0", "o_satopt1"], "StreamHolder": ["o_stream", "o_stream_faulty"],
     "GInt": ["o_gint", "o_gT"], "GBool": ["o_gT"], "GStr": ["o_gstr"], "GListInt": ["o_glist"], "GBare": ["o_gint"], "ListingA": ["o_listing_a"], "ListingB": ["o_listing_b"],
     "PairIntStr": ["o_pair_is", "o_pair_Ts"], "PairStrInt": ["o_pair_si"], "PairBoolStr": ["o_pair_Ts"],
     "Node": ["o_node3", "o_node1"], "ListNode": ["o_lnode"], "Tree": ["o_tree3"], "RA": ["o_ra"], "RB": ["o_rb"],
@@ -767,6 +870,11 @@ CONVERTERS: Dict[str, Tuple[Any, Any, List[str]]] = {
     "InnerTags": (Inner, Inner, ["o_inner"]),
     "NT2M1": (M1, M2, ["o_m1"]),
     "CLink": (CSrc, CDst, ["o_csrc"]),
+    "CTags": (CSrc, CDstTags, ["o_csrc"]),
+    "CLinkStr": (CSrc, CDstS, ["o_csrc"]),
+    "Ann": (AnnSrc, AnnDst, ["o_annsrc"]),
+    "AnnList": (Annotated[List[int], "m"], List[int], ["o_l01"]),
+    "AnnDict": (Dict[str, List[int]], Annotated[Dict[str, List[int]], "m"], ["o_dAl"]),
     "M1Str": (M1, M1S, ["o_m1"]),
 }
 CONV_RECIPES: Dict[str, Any] = {
@@ -775,8 +883,23 @@ CONV_RECIPES: Dict[str, Any] = {
     "coerce_int_str": lambda: [coercer(int, str, str)],
     "coerce_int_hash": lambda: [coercer(int, str, _hash_str)],
     "link_b_c": lambda: [link(P[CSrc].b, P[CDst].c)],
+    "const_factory": lambda: [link_constant(P[CDstTags].tags, factory=list), link_function(_sum_ab, P[CDstTags].total)],
     "link_a_c": lambda: [link(P[CSrc].a, P[CDst].c)],
+    "link_b_cs": lambda: [link(P[CSrc].b, P[CDstS].c)],
+    "link_a_cs": lambda: [link(P[CSrc].a, P[CDstS].c)],
 }
+
+
+# the same provider objects handed to every call (a module-level recipe list, the usual way to write it)
+CONV_RECIPES_SHARED: Dict[str, Any] = {}
+
+
+def conv_recipe(name, shared=False):
+    if not shared:
+        return CONV_RECIPES[name]()
+    if name not in CONV_RECIPES_SHARED:
+        CONV_RECIPES_SHARED[name] = CONV_RECIPES[name]()
+    return CONV_RECIPES_SHARED[name]
 
 
 # ------------------------------------------------------------------------------------------------
@@ -829,6 +952,11 @@ RECIPES: Dict[str, Any] = {
     # location-bound name mappings: the same model is laid out differently depending on where it is reached from
     "nm_scoped_upper": lambda: [name_mapping(P[Outer1].inner, name_style=NameStyle.UPPER)],
     "nm_scoped_node": lambda: [name_mapping(P[Holder].first, name_style=NameStyle.UPPER)],
+    "nm_saturator": lambda: [name_mapping(SatModel, skip=["more"], extra_in=_saturate, extra_out=_extract),
+                             name_mapping(SatOpt, skip=["more"], extra_in=_saturate, extra_out=_extract, omit_default=True)],
+    "nm_paths": lambda: [name_mapping(M1, map={"a": ("data", "a"), "b": ("data", "meta", "b")}),
+                         name_mapping(Inner, map={"v": ("payload", "v"), "tags": ("payload", "tags")}),
+                         name_mapping(Pair, map={"first": ("items", 0), "second": ("items", 1)})],
     "nm_maps": lambda: [name_mapping(M1, map={"a": "m1_a"}), name_mapping(map={"a": "legacy_a"})],
     "unsupported_fix": lambda: [loader(typing.Callable[[int], int], lambda x: x), dumper(typing.Callable[[int], int], lambda x: None)],
 }
@@ -836,7 +964,8 @@ RECIPES: Dict[str, Any] = {
 # the types a recipe variant is about: histories on a retort with that recipe are steered towards them
 RECIPE_TYPES: Dict[str, List[str]] = {
     "nm_scoped_upper": ["Outer1", "Outer2", "Inner"], "nm_scoped_node": ["Holder", "Node", "ListNode", "Outer1"],
-    "nm_maps": ["M1", "M2", "M3", "ListM1", "ListM2", "UM1M3"], "chain_node_children": ["Outer1", "Outer2", "Node", "Holder"],
+    "nm_maps": ["M1", "M2", "M3", "ListM1", "ListM2", "UM1M3"], "nm_saturator": ["SatModel", "SatOpt", "SatOpt"],
+    "nm_paths": ["M1", "Inner", "ListM1", "Outer1", "PairIntStr", "PairBoolStr"], "chain_node_children": ["Outer1", "Outer2", "Node", "Holder"],
     "scoped_int": ["M1", "M2", "ListM1", "int"], "scoped_node_value": ["Node", "Holder", "Outer1", "ListNode"],
     "scoped_linked_head": ["LinkedInt", "LinkedStr", "LinkedBool"], "enum_by_name": ["Color", "Shade", "LitColorR", "LitShade"],
     "flag_names": ["Perm"], "validator_inner": ["Inner", "Outer1", "Outer2"], "dumper_scoped": ["Node", "Holder", "ListNode"],
@@ -845,10 +974,22 @@ RECIPE_TYPES: Dict[str, List[str]] = {
     "nm_snake_only": ["SnakeCase"], "nm_camel": ["SnakeCase", "M1"], "nm_camel_shared": ["SnakeCase", "RA", "RB"],
     "chain_int_last": ["int", "M1", "ListInt", "GInt"], "chain_int_shared": ["int", "M1", "ListInt"],
     "chain_int_first": ["int", "M1"], "dumper_int_str": ["int", "M1", "ListInt", "Node"],
-    "nm_omit_default": ["WithDefaults", "Tree", "M1", "LinkedInt"], "nm_extra_forbid_all": ["M1", "Inner", "Node"],
+    "nm_omit_default": ["WithDefaults", "Tree", "M1", "LinkedInt", "DefF", "DefB"], "nm_extra_forbid_all": ["M1", "Inner", "Node"],
 }
 
+for _n in list(CONV_RECIPES):
+    conv_recipe(_n, shared=True)      # built once, at import, in the pristine parent image
+
 DEBUG_TRAILS = {"ALL": DebugTrail.ALL, "FIRST": DebugTrail.FIRST, "DISABLE": DebugTrail.DISABLE}
+
+
+def required_fields(tname_):
+    """Names of the required fields of a dataclass model in the pool, or None."""
+    import dataclasses as dc
+    tp = TYPES.get(tname_)
+    if not (isinstance(tp, type) and dc.is_dataclass(tp)):
+        return None
+    return {f.name for f in dc.fields(tp) if f.default is dc.MISSING and f.default_factory is dc.MISSING}
 
 
 def flatten_handle(desc):
